@@ -7,6 +7,7 @@ from .. import paths
 from ..core import FUNC, call_attr, calls_in, const, dotted, is_const, kwarg, norm, text, walk_local
 
 EXPLANATION = [
+    'C06.pending-owner: a pending-procedure slot of the controller (pending_le_connection, ...) is cleared only in functions that read it first, i.e. by the code that concludes or cancels that very procedure.',
     'C06.addr-origin: the identity under which a controller stores an LE connection (the peer\'s address taken from the opposite '
     'field of the connect PDU) is the identity every later sender uses: LL control PDUs and ACL data are sent from the connection\'s '
     'own self_address, and receivers look connections up by that sender address.',
@@ -230,7 +231,32 @@ def disconnect_both(ctx):
         R.check(len(arm) == 1 and any(dotted(x.func) == 'self.on_classic_disconnected' for x in ast.walk(arm[0]) if isinstance(x, ast.Call)), rule, f'{CTRL}.on_lmp_packet | LmpDetach', 'peer detach is reported to the local host', 'an LMP detach from the peer is not reported', p.loc(ol))
 
 
+
+def pending_owner(ctx):
+    """A pending-procedure slot is cleared only by code that consumed it (read it to conclude or cancel the procedure)."""
+    R, p = ctx.r, ctx.p
+    rule = 'C06.pending-owner'
+    c = p.cls(CTRL)
+    if c is None:
+        R.bad(rule, CTRL, 'anchor missing')
+        return
+    n = 0
+    for name, fn in sorted(c.methods.items()):
+        clears = [a for a in walk_local(fn) if isinstance(a, ast.Assign) and is_const(a.value) and const(a.value) is None
+                  and any((dotted(t) or '').startswith('self.pending_') for t in a.targets)]
+        if name == '__init__':
+            continue
+        for a in clears:
+            slot = next(dotted(t) for t in a.targets if (dotted(t) or '').startswith('self.pending_'))
+            n += 1
+            reads = [x for x in walk_local(fn) if isinstance(x, ast.Attribute) and dotted(x) == slot and isinstance(x.ctx, ast.Load) and x.lineno <= a.lineno]
+            R.check(bool(reads), rule, f'{CTRL}.{name} | clears {slot}', 'the slot is read (to conclude or cancel that procedure) before it is cleared',
+                    f'{name} clears {slot} without ever looking at it: it discards a procedure that belongs to another role/peer (e.g. an incoming connection wiping a pending outgoing one), which then never completes', p.loc(a))
+    R.check(n >= 2, rule, f'{CTRL} | pending slots', f'{n} clearing sites analysed', f'only {n} clearing sites of pending_* slots found')
+
+
 RULES = [
+    ('C06.pending-owner', pending_owner),
     ('C06.addr-origin', addr_origin),
     ('C06.waiter-match', waiter_match),
     ('C06.adv-dataflow', adv_dataflow),
@@ -247,4 +273,5 @@ VARIANTS = [
     ('LE disconnect only local', 'bumble/controller.py', "                connection.send_ll_control_pdu(ll.TerminateInd(command.reason))\n                self.on_le_disconnected(connection, command.reason)\n", "                self.on_le_disconnected(connection, command.reason)\n", 'fire', 'C06.disconnect-both'),
     ('peripheral stores under advertiser address', 'bumble/controller.py', "        peer_address = packet.initiator_address\n", "        peer_address = packet.advertiser_address\n", 'fire', 'C06.addr-origin'),
     ('benign: debug message', 'bumble/controller.py', "        logger.debug(f'New PERIPHERAL connection handle: 0x{connection_handle:04X}')\n", "        logger.debug(f'new PERIPHERAL connection, handle 0x{connection_handle:04X}')\n", 'silent', ''),
+    ('incoming connection wipes the pending outgoing one', 'bumble/controller.py', "        advertiser.stop()\n\n    def on_le_disconnected", "        advertiser.stop()\n        self.pending_le_connection = None\n\n    def on_le_disconnected", 'fire', 'C06.pending-owner'),
 ]
